@@ -256,6 +256,9 @@ def build(ctx):
                 allowed = {wl[-1][1].ident} if wl else {init_cfg.ident if isinstance(init_cfg, Opaque) else None}
                 ok = isinstance(call[1], Opaque) and call[1].ident in allowed
                 ctx.prop('per-file-config/n%d/p%d/input%d/formatted-with-the-config-resolved-for-it' % (nfiles, i, k), o.state.pc, z3.BoolVal(not ok), [], rp, twin=False)
+                if not wl:
+                    first_load = [t for t in tr if t[0] == 'load_config'][0]
+                    ctx.prop('per-file-config/n%d/p%d/input%d/lookup-skipped-only-with-a-resolved-config-path' % (nfiles, i, k), o.state.pc, first_load[3] == 0, [], rp, twin=False)
     validate(ctx)
 
 
